@@ -1,6 +1,7 @@
 import Driver.IPCalc
 import Driver.Alloc
 import Driver.Range
+import Driver.Prefix
 import Std.Data.HashMap
 open Drv
 
@@ -45,4 +46,5 @@ def main (args : List String) : IO UInt32 := do
   | ["ipcalc"] => run ⟨(), fun _ op res => ((), IPCalc.step op res)⟩; return 0
   | ["alloc6"] | ["alloc4"] | ["alloc"] => run ⟨Alloc.St.none, Alloc.step⟩; return 0
   | ["range"] => run ⟨({} : Range.St), Range.step⟩; return 0
+  | ["prefix"] => run ⟨({} : Prefix.St), Prefix.step⟩; return 0
   | _ => IO.eprintln "usage: drv <engine> < trace"; return 2
